@@ -19,7 +19,7 @@ LEVEL = "exploration"
 FORCED_OK = True
 TECHNIQUE = "deterministic simulation over histories of the process-wide numpy generator: every subject (a stochastic model with its own seed, a seeded exposure / sequential observation / scheduler-driven parallel observation, a seeded run that fails inside the seeded section) is executed from two different prior generator states with unrelated work in between; bit-equality of results, generator state compared before/after (also after injected failure), pre-emption at the RNG seam under the seeded scheduler"
 LEVEL_TEXT = "seeded exploration of histories (prior generator state, earlier runs, earlier failures) x subjects x thread interleavings at the numpy.random seam; stochastic model functions are discovered by introspection, those without an argument recipe are reported as uncovered, never as passed"
-LEVEL_NOTE = "trusted: numpy.random.get_state() equality as the meaning of 'same generator state'; calibration seeding (pygmo_seed + pipeline_seed) is decided in the C10/C11 engine under clause C04 there"
+LEVEL_NOTE = "trusted: numpy.random.get_state() equality as the meaning of 'same generator state'; calibration seeding (pygmo_seed + pipeline_seed, stochastic probe) is the 'calibration' subject kind, run through the same scheduler"
 RULE = (
     "subject drawn from {real stochastic model called directly with seed=, pipeline of real stochastic models + probe drawers run as exposure / sequential / parallel observation with pipeline_seed, unseeded pipeline whose stochastic models all carry their own seed, seeded run failing inside the seeded section}; "
     "two executions from different prior generator states (seed k + n draws) with another (possibly failing) run in between; distinct = distinct (subject kind, model set, path, policy, prior states); non-trivial = the two prior states differ and the subject draws at least once"
@@ -31,7 +31,7 @@ ASSUMPTIONS = [
 ]
 COMPONENTS = {"real": ["pyxel.util.set_random_seed", "pyxel stochastic models", "exposure / observation paths", "dask get_async", "numpy legacy RNG"], "stub": ["thread pool", "numpy.random module functions wrapped as yield points", "pulse_processing.convert_to_phase (minutes-long physics replaced by a constant frame)"]}
 BUDGET = {"quick": {"n": 320, "wall": 110, "determinism": 4}, "thorough": {"n": 8000, "wall": 1600, "determinism": 12}}
-REQUIRED_REACH = ["prior_with_cached_gaussian", "kind:noseed-model", "kind:model", "kind:pipeline", "kind:own-seeds", "kind:failing", "path:exposure", "path:obs-seq", "path:obs-par", "rng_overlap_runs", "state_checked_after_error"]
+REQUIRED_REACH = ["kind:calibration", "prior_with_cached_gaussian", "kind:noseed-model", "kind:model", "kind:pipeline", "kind:own-seeds", "kind:failing", "path:exposure", "path:obs-seq", "path:obs-par", "rng_overlap_runs", "state_checked_after_error"]
 
 GROUPS = ["scene_generation", "photon_collection", "phasing", "charge_generation", "charge_collection", "charge_transfer", "charge_measurement", "signal_transfer", "readout_electronics", "data_processing"]
 
@@ -102,6 +102,17 @@ def _model_entry(name, kwargs, seed):
 
 
 def generate(rng, tier):
+    if rng.random() < 0.06:
+        from .. import calib
+
+        scn = calib.gen_calibration(rng, tier, fit_ranges="full", multi_readout_p=0.0, weights_p=0.0, n_targets=(1, 2), islands=(1, 1, 2))
+        scn["kind"] = "calibration"
+        scn["mode"]["pipeline_seed"] = rng.randrange(1, 2**31)
+        scn["pipeline"]["charge_collection"][0]["arguments"]["draws"] = rng.randint(1, 3)
+        scn["prior"] = [[rng.randrange(2**31), rng.randint(0, 40), rng.randint(0, 3)], [rng.randrange(2**31), rng.randint(0, 40), rng.randint(0, 3)]]
+        scn["between"] = rng.choice(["none", "draws", "failed-run"])
+        scn["sched"]["policy"] = rng.choice(["fifo", "lifo", "random", "random", "preempt"])
+        return scn
     kind = rng.choice(["model", "model", "pipeline", "pipeline", "pipeline", "own-seeds", "failing", "noseed-model"])
     scn = {"kind": kind, "prior": [[rng.randrange(2**31), rng.randint(0, 40), rng.randint(0, 3)], [rng.randrange(2**31), rng.randint(0, 40), rng.randint(0, 3)]], "between": rng.choice(["none", "draws", "failed-run", "other-run"])}
     if kind == "noseed-model":
@@ -180,7 +191,7 @@ def generate(rng, tier):
 
 
 def shrink(scn):
-    if scn["kind"] in ("model", "noseed-model"):
+    if scn["kind"] in ("model", "noseed-model", "calibration"):
         return
     for g, ms in scn["pipeline"].items():
         for k, m in enumerate(ms or []):
@@ -322,6 +333,13 @@ def execute(scn, forced=None):
             if kind in ("model", "noseed-model"):
                 d, e = _run_model(scn)
                 info = {}
+            elif kind == "calibration":
+                from .. import calib
+
+                rec = calib.run_calibration(scn, forced=forced if rep == 0 else None, reset=False)
+                d, e = calib.result_digest(rec["tree"]), rec["exc"]
+                info = dict(rec.get("sim") or {})
+                info["overlap"] = (rec.get("rng") or {}).get("overlap", 0)
             else:
                 d, e, info = _run_world(scn, forced=forced if rep == 0 else None)
         except sched.HarnessError:
@@ -340,6 +358,13 @@ def execute(scn, forced=None):
     if kind in ("model", "noseed-model"):
         feat = f"model:{scn['model']}" + ("+error-path" if scn.get("error_path") else "")
         stats["model:" + scn["model"]] = 1
+    elif kind == "calibration":
+        overlap = max((i.get("overlap", 0) for i in infos), default=0)
+        if overlap:
+            stats["rng_overlap_runs"] = 1
+            feat = "seeded+rng-overlap"
+        else:
+            feat = "calibration"
     else:
         stats["path:" + scn["path"]] = 1
         overlap = max((i.get("overlap", 0) for i in infos), default=0)
@@ -387,7 +412,7 @@ def execute(scn, forced=None):
         "digest": ":".join(digests) + ":" + (info0.get("digest") or ""),
         "sim_time": float(info0.get("now") or 0.0),
         "decisions": info0.get("decisions") or [],
-        "sample": {"kind": kind, "model": scn.get("model"), "path": scn.get("path"), "models": sorted(m["name"] for _, m in world.all_models(scn)) if "pipeline" in scn else None, "prior": scn["prior"], "between": scn["between"]},
+        "sample": {"kind": kind, "model": scn.get("model"), "path": scn.get("path"), "models": sorted(m["name"] for _, m in world.all_models(scn)) if "pipeline" in scn else None, "policy": (scn.get("sched") or {}).get("policy"), "prior": scn["prior"], "between": scn["between"]},
     }
 
 
